@@ -200,6 +200,11 @@ def integrate_spin(expr: Expr, target_idx: str, target_spin: str) -> Expr:
                 break
         if term_vanishes:
             continue
+        # the allowed spin blocks are not known for any object in the term
+        # -> no restrictions: the spin of the target indices is taken from the
+        #    input, while both spins are possible for all contracted indices
+        if not term_spin_idx_maps:
+            combinations.append({"a": set(), "b": set()})
 
         # - iterate over the unique combinations, replace the spin orbitals
         #   by the corresponding spatial orbitals (assign a spin to the
